@@ -3,6 +3,7 @@ package eng
 import (
 	"fmt"
 	"go/constant"
+	"go/token"
 	"go/types"
 	"regexp"
 	"sort"
@@ -384,6 +385,7 @@ type swEntry struct {
 	Val    string
 	Pos    string
 	Ctx    string // literal of a dominating strings.HasPrefix(x, "..") test (token context), if any
+	Whole  bool   // the literal is compared with the very text the HasPrefix test is about (not with a suffix of it)
 }
 
 func stringSwitchTables(w *World, tb *TB, f *ssa.Function) []swEntry {
@@ -414,14 +416,20 @@ func stringSwitchTables(w *World, tb *TB, f *ssa.Function) []swEntry {
 				if fa, ok := x.Addr.(*ssa.FieldAddr); ok {
 					if k, ok := x.Val.(*ssa.Const); ok && k.Value != nil {
 						ctx := ""
+						whole := false
+						other := bo.X
+						if other == ssa.Value(litV) {
+							other = bo.Y
+						}
 						for _, cd := range CondsAt(tgt) {
 							if cl, ok := cd.V.(*ssa.Call); ok && cd.Pos && CalleeName(cl.Common()) == "strings.HasPrefix" {
 								if pk, ok := cl.Call.Args[1].(*ssa.Const); ok && pk.Value != nil && pk.Value.Kind() == constant.String && ctx == "" {
 									ctx = constant.StringVal(pk.Value)
+									whole = tb.Of(cl.Call.Args[0]).String() == tb.Of(other).String()
 								}
 							}
 						}
-						out = append(out, swEntry{Lit: lit, Target: fieldName(fa.X.Type(), fa.Field), Val: k.Value.ExactString(), Pos: w.InstrPos(in), Ctx: ctx})
+						out = append(out, swEntry{Lit: lit, Target: fieldName(fa.X.Type(), fa.Field), Val: k.Value.ExactString(), Pos: w.InstrPos(in), Ctx: ctx, Whole: whole})
 					}
 				}
 			case *ssa.Return:
@@ -475,21 +483,83 @@ func ruleParserTables(c *Check, w *World, tb *TB, rule string) {
 		"PSHA1|PasswordHash": enum("PasswordSHA1"), "PSHA256|PasswordHash": enum("PasswordSHA256"), "PSHA512|PasswordHash": enum("PasswordSHA512"),
 	}
 	found := map[string]bool{}
+	// a token table may live in a helper that returns the constant; the fields its result is stored into
+	// are the targets of its entries
+	fedBy := map[*ssa.Function]map[string]bool{}
 	for f := range reach {
 		if fnPkgPath(f) != OtpPath {
 			continue
 		}
+		EachInstr(f, func(in ssa.Instruction) {
+			st, ok := in.(*ssa.Store)
+			if !ok {
+				return
+			}
+			fa, ok := st.Addr.(*ssa.FieldAddr)
+			if !ok {
+				return
+			}
+			v := st.Val
+			for {
+				switch x := v.(type) {
+				case *ssa.Convert:
+					v = x.X
+					continue
+				case *ssa.ChangeType:
+					v = x.X
+					continue
+				case *ssa.Extract:
+					if x.Index == 0 {
+						v = x.Tuple
+						continue
+					}
+				}
+				break
+			}
+			if cl, ok := v.(*ssa.Call); ok {
+				if g := cl.Call.StaticCallee(); g != nil && w.InModule(g) {
+					if fedBy[g] == nil {
+						fedBy[g] = map[string]bool{}
+					}
+					fedBy[g][fieldName(fa.X.Type(), fa.Field)] = true
+				}
+			}
+		})
+	}
+	for f := range reach {
+		if fnPkgPath(f) != OtpPath {
+			continue
+		}
+		var entries []swEntry
 		for _, e := range stringSwitchTables(w, tb, f) {
+			if e.Target == "return" && len(fedBy[f]) > 0 {
+				for fld := range fedBy[f] {
+					e2 := e
+					e2.Target = fld
+					entries = append(entries, e2)
+				}
+				continue
+			}
+			entries = append(entries, e)
+		}
+		sort.SliceStable(entries, func(i, j int) bool { return entries[i].Lit+entries[i].Target < entries[j].Lit+entries[j].Target })
+		for _, e := range entries {
 			k := e.Lit + "|" + e.Target
 			if e.Target == "Challenge" {
 				// the width literal must be read in the context of its format letter: QN / QA / QH
 				pfxLit := e.Ctx
+				if e.Whole && strings.HasPrefix(e.Lit, e.Ctx) {
+					pfxLit = "" // the literal already is the whole token
+				}
 				name := map[string]string{"QN08": "ChallengeNumeric08", "QN10": "ChallengeNumeric10", "QA08": "ChallengeAlpha08", "QA10": "ChallengeAlpha10", "QH08": "ChallengeHex08", "QH10": "ChallengeHex10"}[pfxLit+e.Lit]
 				if name == "" {
 					c.Unk(rule, FuncName(f), "token:"+pfxLit+e.Lit+"|Challenge", fmt.Sprintf("a challenge format is set for token %q%q, which is not a format of the RFC 6287 grammar known to the checker", pfxLit, e.Lit), e.Pos)
 					continue
 				}
 				found[k] = true
+				if full := pfxLit + e.Lit; strings.HasPrefix(full, "QN") {
+					found[full[2:]+"|Challenge"] = true
+				}
 				c.Decide(e.Val == enum(name), rule, FuncName(f), "token:"+pfxLit+e.Lit+"|Challenge", "challenge token maps to the format constant of the same letter and width", fmt.Sprintf("token %s%s sets Challenge=%s, expected %s (%s)", pfxLit, e.Lit, e.Val, enum(name), name), e.Pos)
 				continue
 			}
@@ -536,6 +606,40 @@ func ruleParserTables(c *Check, w *World, tb *TB, rule string) {
 			tgt := b.Succs[0]
 			if r, ok := tgt.Instrs[len(tgt.Instrs)-1].(*ssa.Return); ok && len(r.Results) > 0 {
 				units[ch] = tb.Of(r.Results[0]).String()
+			} else if _, isJ := tgt.Instrs[len(tgt.Instrs)-1].(*ssa.Jump); isJ && len(tgt.Instrs) == 1 {
+				// the case selects a constant multiplier: return v * phi(…k…)
+				j := tgt.Succs[0]
+				for _, r := range Returns(f) {
+					if len(r.Results) == 0 {
+						continue
+					}
+					mul, ok := r.Results[0].(*ssa.BinOp)
+					if !ok || mul.Op != token.MUL {
+						continue
+					}
+					for side := 0; side < 2; side++ {
+						ph, v := mul.X, mul.Y
+						if side == 1 {
+							ph, v = mul.Y, mul.X
+						}
+						p, ok := ph.(*ssa.Phi)
+						if !ok || p.Block() != j {
+							continue
+						}
+						for i, pr := range j.Preds {
+							if pr != tgt {
+								continue
+							}
+							if k, ok := constInt(p.Edges[i]); ok {
+								if k.Int64() == 1 {
+									units[ch] = tb.Of(v).String()
+								} else {
+									units[ch] = "bin(*; " + tb.Of(v).String() + "; const(" + k.String() + "))"
+								}
+							}
+						}
+					}
+				}
 			}
 		}
 		if len(units) == 0 {
